@@ -5,12 +5,12 @@ NOTES = ("All checks are property-based tests / fuzz targets over the real go-dc
 NOT_APPLICABLE = {}
 META = {
     "C09": dict(
-        technique="exhaustive enumeration + rapid property-based testing against a partition validity predicate",
+        technique="exhaustive enumeration + rapid property-based testing against a partition validity predicate; membership histories on one discovery object; leader-numbered groups with RPC fault injection",
         text="Every (N,T) pair with 1<=T<=N<=1024 is enumerated in the thorough tier (quick: N<=256, 512, 1024) and every "
              "member's set inspected against the partition predicate (non-empty, contiguous, ascending, disjoint, exact cover, "
              "sizes differ by at most 1, pure); member selection goes through the real static VBucketDiscovery. The space the "
              "property quantifies over is finite and is covered completely, which is the strongest this technique can give.",
-        note="Trusts the Go compiler/runtime; static membership only for Get() (other membership types relay numbers, see C10).",
+        note="Trusts the Go compiler/runtime; Get() is exercised with static, dynamic and kubernetesHa membership (the Couchbase mechanism's numbering is C10's).",
     ),
     "C17": dict(
         technique="rapid property-based testing against a documented-default table, exact-rational oracle and textual-substitution oracle; native fuzz of the size parser",
@@ -22,12 +22,12 @@ META = {
              "size magnitudes limited to where float64 == exact arithmetic; logging.level default not covered.",
     ),
     "C18": dict(
-        technique="exhaustive pair grid + rapid triples / round trips + native fuzz against a lexicographic tuple model",
+        technique="exhaustive pair grid + rapid triples / round trips + native fuzz against a lexicographic tuple model; rapid-generated versions and bucket kinds served by a simulated cluster to the real dcp.NewDcp, negotiated DCP_CONTROL keys and close pattern read off the node",
         text="All ordered pairs of an 896-tuple grid around the three gates are enumerated in every tier (trichotomy, antisymmetry, "
              "agreement with tuple order, gate monotonicity and switch points); transitivity on rapid triples with generated near-ties; "
              "format->parse round trip; malformed strings by rapid and coverage-guided fuzzing must return tuple-or-error.",
-        note="Gate expressions of dcp.go are replicated in the check (newDcp needs a live cluster); the serial-close gate is additionally "
-             "observed behaviourally through stream.NewStream. Wire-level DCP_CONTROL gating is not observed (no Layer C).",
+        note="The gate expressions are evaluated by the library itself in the wire unit (real newDcp over HTTP bootstrap + SCRAM on the simulated "
+             "cluster; real Start()/Close() for the serial-close gate); the replicated expressions of the grid unit only add density. TLS is outside.",
     ),
     "C01": dict(
         technique="rapid stateful op-list generation against a settled-position reference model; crash injection at every step and inside multi-vBucket saves",
@@ -66,14 +66,16 @@ META = {
              "subset with full-range uint64 fields; the real client.OpenStream and the real Couchbase xattr metadata run over real gocbcore "
              "agents against the simulated node, where the wire extras and the KV write set are observed. Sampling over a very large input "
              "space with boundary classes; not exhaustive. The file backend additionally runs under the history engine "
-             "(saves with idle and dirty vBuckets, crash, restart): the file must hold the last value handed over for every assigned vBucket.",
+             "(saves with idle and dirty vBuckets, crash, restart): the file must hold the last value handed over for every assigned vBucket. "
+             "Read-only metadata mode is additionally driven through the real Dcp.Start() with an injected and with the file backend.",
         note="simnode is my model of the memcached/DCP/sub-document protocol as gocbcore v10.5.2 speaks it (trusted). 'custom' backend = the in-memory fake.",
     ),
     "C03": dict(
         technique="rapid generation of concurrent per-vBucket event sequences against an independent delivery-filter model (sequence equality + field fidelity)",
         text="Up to 8 vBuckets are fed concurrently through the real observers/stream; the delivered list per vBucket must equal the filter model "
-             "as a sequence and every field must be the server's. Reserved-prefix and skipUntil boundaries are generated densely.",
-        note="Layer A emulates gocbcore's decode-and-dispatch; catch-up filtering after a rollback is C08's. Concurrency across vBuckets is sampled by the Go scheduler.",
+             "as a sequence and every field must be the server's. Reserved-prefix and skipUntil boundaries are generated densely; a third of the "
+             "vBuckets stream after a rollback (catch-up filter), a quarter of the others end with a transient cause and are resumed.",
+        note="Layer A emulates gocbcore's decode-and-dispatch; the rollback negotiation on the wire is C08's. Concurrency across vBuckets is sampled by the Go scheduler.",
     ),
     "C12": dict(
         technique="rapid stateful op-lists with stream-end fault injection over the full cause alphabet + finite-mode scenarios against an active-stream / reopen model",
@@ -95,7 +97,8 @@ META = {
              "tables; (b) the real gate is driven by concurrent feeder/reporter goroutines with a Lamport-style necessary condition that cannot "
              "false-alarm on scheduling; (c) the real rollbackMitigation polls OBSERVE_SEQNO on a 4-server simulated cluster (0..3 replicas, "
              "unassigned replicas, vbUUID flips, regressions, transient TMPFAIL, config revision bumps); single-copy steps are synchronised by "
-             "request count, which makes the oracle exact and two-sided.",
+             "request count, which makes the oracle exact and two-sided; cluster map revisions incl. a replica moving to another node are followed "
+             "(the harness waits until the library has started over).",
         note="simnode's OBSERVE_SEQNO/cluster-map model and gocbcore are trusted; liveness clauses are bounded waits (>= 400x the poll interval) re-run once in a fresh environment before being reported.",
     ),
     "C08": dict(
@@ -119,7 +122,10 @@ META = {
              "blocked in the store (later ok / failing), with "
              "auto/manual checkpointing, health check, HTTP API and real rollback-mitigation polling (simulated cluster). The known finding "
              "close_in_rebalance_window (crash / hang when Close arrives while a rebalance has the stream closed) is excluded by construction, "
-             "counted, and replayed on every run.",
+             "counted, and replayed on every run. Further dimensions: server below 5.5.0 (serial close), Couchbase heart-beat membership "
+             "on the simulated cluster (incl. Close while a monitor round is in flight), a server-initiated stream end during Close; after "
+             "a quiet window no goroutine may still execute library code. Three defects found by the thorough tier under load were repaired "
+             "(fix: commits efa9ff9, d0c2726, 769bfdb) and are re-run deterministically (Start();Stop() at the component API, held reads).",
         note="Durability is asserted only where the stream is open at Close; quiet-window checks allow one interval of grace per component.",
     ),
     "C14": dict(
@@ -154,7 +160,8 @@ META = {
         technique="rapid-generated join/leave histories over real membership instances on a simulated bucket (child processes), leader/follower numbering with fake RPC clients, PUT sequences through the real HTTP API; numbering validity predicate at quiescence",
         text="The numbering is checked as a validity predicate (same size, distinct numbers, join order) at every quiescent point of generated "
              "histories, for the Couchbase heart-beat mechanism end to end on the wire, for the leader-assigned mechanism through the real "
-             "serviceDiscovery on both sides, and for the static / dynamic relays through the real API.",
+             "serviceDiscovery on both sides (incl. transiently failing assignment RPCs and followers restarting under their name), and for the "
+             "static / dynamic relays through the real API.",
         note="Monitor-round interleavings are sampled by timers, not owned; convergence is a bounded wait re-run once (discarded_timing otherwise). "
              "Kubernetes lease election and StatefulSet ordinal discovery need an API server / hostname control and are not exercised.",
     ),
